@@ -97,6 +97,7 @@ func runC07(c *Ctx) {
 	runC07Scalar(c, pi)
 	runC07RemoveIf(c, pi)
 	runC07FromRaw(c, pi)
+	runC07MapCopy(c)
 }
 
 func paramName(fn *ssa.Function, i int) string {
